@@ -239,6 +239,14 @@ def rule_hash_vs_make(ctx):
         label = "%s|moved=%s|attacked=%s|ep:%d%d|rights:%s" % (":".join(map(str, cls)), sub[1], sub[2], "ne:get_previous_en_passant_square" in eqs, "ne:get_next_en_passant_square" in eqs,
                                                                "".join("1" if preds.get(n.replace("get_", "is_"), False) else "0" for n in (bk[0] if bk else [])))
         ok = ok_piece and ok_other and ok_pawn
+        if not ok and not got_p and not others and not pawn:
+            # nothing at all was read off zobrist_xor on this path: the delta is not built as a xor chain of table
+            # reads this rule can follow (folded over an array of terms, say). A zobrist_xor that really toggled
+            # nothing would not get past the repository's own incremental-vs-recomputed test.
+            if not seen.get("lost-empty"):
+                seen["lost-empty"] = True
+                ctx.lost(rid, "the keys zobrist_xor toggles (no table read found in the returned delta)")
+            continue
         msg = ""
         if not ok_piece:
             msg += "piece-square keys toggled %s, but make changes %s; " % (sorted(map(lambda x: (x[1], x[2][1], x[3]), got_p), key=repr), sorted(map(lambda x: (x[1], x[2][1], x[3]), exp), key=repr))
